@@ -1,5 +1,90 @@
+//! Replays an operation script on the public `SpanManager` and reports,
+//! after every operation, the decoding of EVERY span id issued so far.
+//!
+//! case: `{"k":"spans","ops":[["ctx", len] | ["span", ctx, start, end] ...]}`
+//! (`ctx` is the 1-based number of a context registered earlier in the script;
+//! magnitudes are u64).
+//!
+//! result: `{"obs":[{"err": null | <panic message of the operation>,
+//!                   "dec": [[ctx, start, end] | {"panic": msg} | {"unknown_ctx": true}, ...],
+//!                   "enc": ["Inline" | "Interned", ...]}, ...]}`
+//! A panic is caught per operation and per `get_span` so that the script goes on.
+
+use std::panic::{AssertUnwindSafe, catch_unwind};
+
+use rsjsonnet_lang::span::{SpanContextId, SpanId, SpanManager};
 use serde_json::{Value as J, json};
 
-pub fn run(_case: &J) -> J {
-    json!({"tool_error": "not implemented"})
+fn take_panic() -> String {
+    crate::LAST_PANIC
+        .with(|p| p.borrow_mut().take())
+        .unwrap_or_else(|| "<unknown panic>".into())
+}
+
+fn num(v: Option<&J>) -> u64 {
+    v.and_then(|x| x.as_u64()).expect("u64 operand")
+}
+
+pub fn run(case: &J) -> J {
+    let ops = case["ops"].as_array().expect("ops");
+    let mut mgr = SpanManager::new();
+    let mut ctxs: Vec<SpanContextId> = Vec::new();
+    let mut issued: Vec<SpanId> = Vec::new();
+    let mut obs = Vec::new();
+    for op in ops {
+        let name = op[0].as_str().expect("op name");
+        let err: Option<String> = match name {
+            "ctx" => {
+                let len = usize::try_from(num(op.get(1))).expect("usize");
+                match catch_unwind(AssertUnwindSafe(|| mgr.insert_source_context(len))) {
+                    Ok((ctx, _src)) => {
+                        ctxs.push(ctx);
+                        None
+                    }
+                    Err(_) => Some(take_panic()),
+                }
+            }
+            "span" => {
+                let c = num(op.get(1)) as usize;
+                let s = usize::try_from(num(op.get(2))).expect("usize");
+                let e = usize::try_from(num(op.get(3))).expect("usize");
+                if c < 1 || c > ctxs.len() {
+                    return json!({"tool_error": format!("script names unknown context {c}")});
+                }
+                let ctx = ctxs[c - 1];
+                match catch_unwind(AssertUnwindSafe(|| mgr.intern_span(ctx, s, e))) {
+                    Ok(id) => {
+                        issued.push(id);
+                        None
+                    }
+                    Err(_) => Some(take_panic()),
+                }
+            }
+            other => return json!({"tool_error": format!("unknown span op {other}")}),
+        };
+        let mut dec = Vec::with_capacity(issued.len());
+        let mut enc = Vec::with_capacity(issued.len());
+        for &id in issued.iter() {
+            match catch_unwind(AssertUnwindSafe(|| mgr.get_span(id))) {
+                Ok((ctx, s, e)) => match ctxs.iter().position(|&x| x == ctx) {
+                    Some(p) => dec.push(json!([p + 1, s as u64, e as u64])),
+                    None => dec.push(json!({"unknown_ctx": true, "s": s as u64, "e": e as u64})),
+                },
+                Err(_) => dec.push(json!({"panic": take_panic()})),
+            }
+            let dbg = catch_unwind(AssertUnwindSafe(|| format!("{id:?}"))).unwrap_or_else(|_| {
+                let _ = take_panic();
+                "?".into()
+            });
+            enc.push(if dbg.starts_with("Inline") {
+                "Inline"
+            } else if dbg.starts_with("Interned") {
+                "Interned"
+            } else {
+                "?"
+            });
+        }
+        obs.push(json!({"err": err, "dec": dec, "enc": enc}));
+    }
+    json!({"obs": obs})
 }
